@@ -19,13 +19,13 @@ EXPLANATION = (
 
 
 def run(ctx: Ctx) -> None:
-    A.rule_det_unif(ctx, 'KAISA')
-    A.rule_det_hash(ctx, ('kfac.assignment',))
-    A.rule_det_pure(ctx, f'{A.KA}.greedy_assignment')
-    A.rule_coh_grid(ctx)
-    C.rule_aff_flags(ctx)
-    A.rule_flt_int(ctx)
-    A.rule_greedy(ctx, 'KAISA')
+    ctx.do(A.rule_det_unif, 'KAISA')
+    ctx.do(A.rule_det_hash, ('kfac.assignment',))
+    ctx.do(A.rule_det_pure, f'{A.KA}.greedy_assignment')
+    ctx.do(A.rule_coh_grid)
+    ctx.do(C.rule_aff_flags)
+    ctx.do(A.rule_flt_int)
+    ctx.do(A.rule_greedy, 'KAISA')
     only = {f'{A.KA}.__init__', 'preconditioner.KFACPreconditioner.__init__'}
-    S.rule_S1_S6(ctx, 'KAISA', only=only, s4_only=True)
-    S.rule_S5(ctx, 'KAISA')
+    ctx.do(S.rule_S1_S6, 'KAISA', only=only, s4_only=True)
+    ctx.do(S.rule_S5, 'KAISA')
